@@ -180,11 +180,16 @@ impl BuiltAdt {
 
         // Handle version-specific chunks based on target version
         let flight_bounds = if version >= AdtVersion::TBC {
-            // Use existing flight bounds or create defaults for TBC+
-            root.flight_bounds.or(Some(MfboChunk {
-                max_plane: [0; 9],
-                min_plane: [0; 9],
-            }))
+            // Use existing flight bounds; create defaults only when a pre-TBC tile is
+            // converted up (a tile that already is TBC+ keeps what it has, or nothing)
+            if root.version < AdtVersion::TBC {
+                root.flight_bounds.or(Some(MfboChunk {
+                    max_plane: [0; 9],
+                    min_plane: [0; 9],
+                }))
+            } else {
+                root.flight_bounds
+            }
         } else {
             None // Remove for pre-TBC
         };
